@@ -598,7 +598,19 @@ def explore(harness, *, tier='quick', timeout_ms=20000, max_paths=20000, budget_
                     elif rctx.violations:
                         # the real code violates the property on a solver-chosen witness that is interior to the path
                         # (every branch decision holds with a margin): a replayed violation
+                        # ... unless it disappears when the inputs are nudged: merged tolerance tests (isclose inside If terms) are not
+                        # branch decisions, so a witness can still sit exactly on such a band edge, where IEEE and exact arithmetic differ
+                        nudged = {k: ((v * (1 + Fraction(1, 10**7)) + Fraction(1, 10**9)) if (isinstance(v, Fraction) and not k.startswith('rng')) else v)
+                                  for k, v in sxm.items()}
+                        try:
+                            rctx2, _, _ = run_once(harness, [], 'real', nudged, timeout_ms, tier)
+                            persists = {l for l, _ in rctx2.violations}
+                        except Exception:  # noqa: BLE001
+                            persists = set()
                         for rl, _ in rctx.violations[:1]:
+                            if rl not in persists:
+                                mism.append(f"real run on a witness: violation {rl} does not persist under a 1e-7 nudge of the inputs (tolerance-band edge): not reported")
+                                continue
                             if rl not in seen_labels:
                                 seen_labels.add(rl)
                                 confirmed_labels.add(rl)
